@@ -82,7 +82,7 @@ def validate_trace(ctx, cfg, trace_path, tag, deviations):
     rows = [json.loads(x) for x in text.splitlines() if x.strip()]
     if not rows:
         raise Broken("empty trace " + tag)
-    t = vlib.tlc(ctx, "JournalTrace", cfg, workers=1, timeout=6000, tag=tag, files={"journaltrace.ndjson": text})
+    t = vlib.tlc(ctx, "JournalTrace", cfg, workers=1, timeout=10000, tag=tag, files={"journaltrace.ndjson": text})
     if not t.ok:
         if t.violated:
             raise Broken("JournalTrace(%s): design invariant %s violated while following an implementation trace:\n%s"
@@ -126,7 +126,7 @@ def run(ctx):
     def stage_a():
         out = {"states": 0, "transitions": 0, "tlc_cfg": [], "tlc_runs": {}}
         for cfg in (["MCJournal_small.cfg"] if quick else ["MCJournal_big.cfg", "MCJournal_deep.cfg"]):
-            r = vlib.tlc_must_pass(ctx, "MCJournal", cfg, workers=8, timeout=5000)
+            r = vlib.tlc_must_pass(ctx, "MCJournal", cfg, workers=8 if quick else 16, timeout=3000 if quick else 10000)
             vlib.log("A  TLC %s: %d distinct / %d generated, depth %d, %.0fs" % (cfg, r.distinct, r.generated, r.depth, r.wall))
             out["states"] += r.distinct
             out["transitions"] += r.generated
@@ -141,7 +141,7 @@ def run(ctx):
         # *nv = same bounds without VIEW: behaviours that differ only in what was reverted earlier stay distinct
         for cfg, uni in ([("MCJournal_emit.cfg", "j1")] if quick else
                          [("MCJournal_emit.cfg", "j1"), ("MCJournal_emitnv.cfg", "j1"), ("MCJournal_emit3.cfg", "j2")]):
-            r = vlib.tlc_must_pass(ctx, "MCJournal", cfg, workers=4 if quick else 8, timeout=3000)
+            r = vlib.tlc_must_pass(ctx, "MCJournal", cfg, workers=4 if quick else 8, timeout=3000 if quick else 10000)
             beh = ctx.work / ("beh-%s.ndjson" % cfg[:-4])
             n = write_behaviours(r, beh)
             if n < 1000:
@@ -165,7 +165,7 @@ def run(ctx):
         n_total, validated = 0, 0
         cfgs = ["MCJournal_evm.cfg"] if quick else ["MCJournal_evm.cfg", "MCJournal_evmnv.cfg", "MCJournal_evm32.cfg", "MCJournal_evm3.cfg"]
         for cfg in cfgs:
-            r = vlib.tlc_must_pass(ctx, "MCJournal", cfg, workers=4 if quick else 8, timeout=3000)
+            r = vlib.tlc_must_pass(ctx, "MCJournal", cfg, workers=4 if quick else 8, timeout=3000 if quick else 10000)
             beh = ctx.work / ("beh-%s.ndjson" % cfg[:-4])
             n = write_behaviours(r, beh)
             if n < 1000:
